@@ -232,6 +232,9 @@ func (x *faultExec) sweep(k int, twin bool, a []string) string {
 	}
 	base := observeAll(e)
 	stamp := dirStamp(e.wdbPath)
+	// volatile trace of a failed attempt that no query shows: a task handed to the worker although the
+	// operation failed (e.g. PushRemove / PushImport before the Update has committed)
+	_, _, tasks0 := e.wm.VerifQueueLens()
 	dirty := ""
 	result := ""
 	single := singleUpdateOp(a)
@@ -266,6 +269,9 @@ func (x *faultExec) sweep(k int, twin bool, a []string) string {
 				}
 				if d := firstDiff(base, observeAll(e)); d != "" && dirty == "" && single {
 					dirty = fmt.Sprintf("obs@%d:%s:%s", j, kind, d)
+				}
+				if _, _, tasks := e.wm.VerifQueueLens(); tasks != tasks0 && dirty == "" {
+					dirty = fmt.Sprintf("task-queued@%d:%s", j, kind)
 				}
 			}
 		}
